@@ -18,6 +18,7 @@ import (
 	"path/filepath"
 	"strconv"
 	"strings"
+	"sync"
 	"time"
 
 	"verif/driver"
@@ -298,6 +299,44 @@ func main() {
 		g := 4 * batches
 		ps = append(ps, bProgram{"goroutine-churn", src, []string{fmt.Sprintf("G churn %d %d", t*(t+1)/2, g*(g-1)/2)}})
 	}
+	// 1d. a goroutine gets a stack like any other: deep recursion and a large
+	// frame inside a go statement's call behave as on the main goroutine
+	{
+		depth := rng.Range(1500, 2500)
+		src := fmt.Sprintf(`package main
+
+//go:noinline
+func deep(n int, salt int64) int64 {
+	var a [64]int64
+	for i := range a {
+		a[i] = salt + int64(i*n)
+	}
+	if n == 0 {
+		return a[7]
+	}
+	return deep(n-1, salt+1) + a[n%%64] - a[(n+1)%%64]
+}
+
+//go:noinline
+func wide(salt int64) int64 {
+	var big [131072]int64 // 1 MB frame
+	for i := 0; i < len(big); i += 4096 {
+		big[i] = salt + int64(i)
+	}
+	return big[8192] + big[126976]
+}
+
+func main() {
+	want1, want2 := deep(%d, 3), wide(5)
+	done := make(chan int64)
+	go func() { done <- deep(%d, 3) }()
+	go func() { done <- wide(5) }()
+	a, b := <-done, <-done
+	println("G deep-stack", a+b == want1+want2)
+}
+`, depth, depth)
+		ps = append(ps, bProgram{"go-statement-deep-stack", src, []string{"G deep-stack true"}})
+	}
 	// 2. Mutex-protected counter + WaitGroup
 	ps = append(ps, bProgram{"mutex-counter", fmt.Sprintf(`package main
 
@@ -496,6 +535,33 @@ func main() {
 	var tp atomic.Pointer[int]
 	tp.Store(&a)
 	check("Pointer type", tp.Load() == &a && tp.Swap(&b) == &a && tp.CompareAndSwap(&b, nil) && tp.Load() == nil)
+	var ti32 atomic.Int32
+	ti32.Store(-8)
+	check("Int32 type", ti32.Add(3) == -5 && ti32.And(0x7f) == -5 && ti32.Load() == 0x7b && ti32.Or(0x100) == 0x7b && ti32.Swap(1) == 0x17b && ti32.CompareAndSwap(1, 1) && ti32.Load() == 1)
+	var tu64 atomic.Uint64
+	tu64.Store(1 << 40)
+	check("Uint64 type", tu64.Add(^uint64(0)) == 1<<40-1 && tu64.And(0xff) == 1<<40-1 && tu64.Or(1<<63) == 0xff && tu64.Load() == 1<<63|0xff && tu64.Swap(2) == 1<<63|0xff && !tu64.CompareAndSwap(3, 4) && tu64.CompareAndSwap(2, 5) && tu64.Load() == 5)
+	var tup atomic.Uintptr
+	check("Uintptr type", tup.Add(9) == 9 && tup.Add(^uintptr(0)) == 8 && tup.And(12) == 8 && tup.Or(3) == 8 && tup.Load() == 11 && tup.Swap(20) == 11 && tup.CompareAndSwap(20, 21) && !tup.CompareAndSwap(20, 22) && tup.Load() == 21)
+	var ti64 atomic.Int64
+	check("Int64 And/Or", ti64.Or(-1) == 0 && ti64.And(1<<40|1) == -1 && ti64.Load() == 1<<40|1 && ti64.Add(-2) == 1<<40-1)
+	var tu32 atomic.Uint32
+	tu32.Store(0xf0)
+	check("Uint32 And/Or/Swap", tu32.And(0x30) == 0xf0 && tu32.Or(1) == 0x30 && tu32.Swap(9) == 0x31 && tu32.Add(^uint32(0)) == 8)
+	var ai32 int32 = 0x55
+	check("AndInt32/OrInt32", atomic.AndInt32(&ai32, 0x0f) == 0x55 && ai32 == 5 && atomic.OrInt32(&ai32, 0x50) == 5 && ai32 == 0x55)
+	var ai64 int64 = -1
+	check("AndInt64/OrInt64", atomic.AndInt64(&ai64, 1<<50) == -1 && ai64 == 1<<50 && atomic.OrInt64(&ai64, 1) == 1<<50 && ai64 == 1<<50|1)
+	var au64 uint64 = 1<<63 | 6
+	check("AndUint64/OrUint64", atomic.AndUint64(&au64, 1<<63|4) == 1<<63|6 && au64 == 1<<63|4 && atomic.OrUint64(&au64, 3) == 1<<63|4 && au64 == 1<<63|7)
+	var aup uintptr = 0xff
+	check("AndUintptr/OrUintptr", atomic.AndUintptr(&aup, 0x3c) == 0xff && aup == 0x3c && atomic.OrUintptr(&aup, 0x41) == 0x3c && aup == 0x7d)
+	var dup uintptr = 2
+	check("AddUintptr down", atomic.AddUintptr(&dup, ^uintptr(0)) == 1 && atomic.AddUintptr(&dup, ^uintptr(0)) == 0 && dup == 0)
+	var du32 uint32 = 1
+	check("AddUint32 down", atomic.AddUint32(&du32, ^uint32(0)) == 0 && du32 == 0)
+	var c64 int64 = 7
+	check("CAS old==new", atomic.CompareAndSwapInt64(&c64, 7, 7) && c64 == 7 && !atomic.CompareAndSwapInt64(&c64, 8, 8))
 	var v atomic.Value
 	check("Value nil", v.Load() == nil)
 	v.Store("x")
@@ -657,19 +723,39 @@ func (prop) ExtraPhase(tier string, seed uint64, deadline time.Time) (*driver.Ex
 	hashes := map[string]bool{}
 	perProg := map[string]int{}
 	var sample any
-	for r := 0; r < rounds && time.Now().Before(deadline) && len(er.Violations) < 3; r++ {
+	for r := 0; r < rounds && (r == 0 || time.Now().Before(deadline)) && len(er.Violations) < 3; r++ {
 		rng := sim.NewRng(sim.RunSeed(seed^0xc11b, uint64(r)))
-		for pi, p := range templates(rng) {
-			if !time.Now().Before(deadline) {
-				break
+		progs := templates(rng)
+		// build all programs of the round side by side (a cold build of a program
+		// that imports sync takes a minute on a loaded machine)
+		bins := make([]string, len(progs))
+		errs := make([]error, len(progs))
+		var wg sync.WaitGroup
+		slots := make(chan struct{}, 4)
+		for pi := range progs {
+			wg.Add(1)
+			go func(pi int) {
+				defer wg.Done()
+				slots <- struct{}{}
+				defer func() { <-slots }()
+				bins[pi], errs[pi] = buildProgram(filepath.Join(bTmp, fmt.Sprintf("prog-%d-%d", r, pi)), progs[pi].Src)
+			}(pi)
+		}
+		wg.Wait()
+		for pi, p := range progs {
+			if errs[pi] != nil {
+				return nil, fmt.Errorf("layer B program %s: %v", p.Name, errs[pi])
 			}
-			dir := filepath.Join(bTmp, fmt.Sprintf("prog-%d-%d", r, pi))
-			bin, err := buildProgram(dir, p.Src)
-			if err != nil {
-				return nil, fmt.Errorf("layer B program %s: %v", p.Name, err)
-			}
-			nprog++
-			for k := 0; k < nsched && time.Now().Before(deadline); k++ {
+		}
+		nprog += len(progs)
+		for pi, p := range progs {
+			bin := bins[pi]
+			// every program kind gets its share of the remaining time, and at least
+			// minSched schedules however late it is
+			const minSched = 8
+			share := time.Until(deadline) / time.Duration(len(progs)-pi)
+			until := time.Now().Add(share)
+			for k := 0; k < nsched && (k < minSched || time.Now().Before(until)); k++ {
 				ss := sim.RunSeed(seed^0x5c4ed, uint64((r*10+pi)*100000+k))
 				sp := []int{0, 0, 30, 200}[k%4]
 				fc := 0
@@ -702,7 +788,7 @@ func (prop) ExtraPhase(tier string, seed uint64, deadline time.Time) (*driver.Ex
 					break
 				}
 			}
-			os.RemoveAll(dir)
+			os.RemoveAll(filepath.Join(bTmp, fmt.Sprintf("prog-%d-%d", r, pi)))
 		}
 	}
 	er.Evaluations = runs
